@@ -11,7 +11,18 @@ Terms are nested tuples:
   ('match', scrut, ((pat, guard, body)...))  ('let', pat, x)   (if-let condition)
   ('return', x) ('closure', path) ('const', path) ('opaque', kind)
 """
-from .thir import peel, show_pat, walk, field_chain
+from .thir import peel, show_pat, walk, field_chain, pat_bindings
+
+
+def pat_simple(p):
+    return p.get("k") in ("Bind", "Wild") and "sub" not in p
+
+
+def value(t):
+    """The value of a term, skipping statements evaluated for effect before it."""
+    while isinstance(t, tuple) and t and t[0] == "seq":
+        t = t[2]
+    return t
 
 TRANSPARENT_CALLS = {"clone", "to_owned", "borrow", "borrow_mut", "as_ref", "as_mut", "deref", "deref_mut", "to_vec", "cloned", "copied"}
 
@@ -76,21 +87,25 @@ class Sym:
             self.bind_pat(pat["p"], term, env)
 
     def block(self, node, env):
-        env = env  # shared: lets are visible to later statements of enclosing expression
+        stmts = []
         for s in node["ss"]:
             if s.get("k") == "LetStmt":
                 if "i" in s:
                     t = self.ev(s["i"], env)
                     if "els" in s:
-                        self.effects.append((("letelse", show_pat(s["p"]), t), s))
+                        stmts.append(("letelse", show_pat(s["p"]), t, self.ev(s["els"], env)))
+                    elif not pat_simple(s["p"]) or any(i in self.mutated for i, _, _ in pat_bindings(s["p"])):
+                        stmts.append(("letstmt", show_pat(s["p"]), t))
                     if self.inline_lets:
                         self.bind_pat(s["p"], t, env)
                 continue
             t = self.ev(s, env)
             self.effects.append((t, s))
-        if "e" in node:
-            return self.ev(node["e"], env)
-        return ("tuple", ())
+            stmts.append(t)
+        tail = self.ev(node["e"], env) if "e" in node else ("tuple", ())
+        if stmts:
+            return ("seq", tuple(stmts), tail)
+        return tail
 
     def ev(self, node, env):
         n = node
@@ -123,8 +138,10 @@ class Sym:
             return ("cast", self.ev(n["e"], env), self.facts.ty(n))
         if k == "If":
             c = self.ev(n["c"], env)
-            t = self.ev(n["th"], dict(env))
-            e = self.ev(n["el"], dict(env)) if "el" in n else ("tuple", ())
+            # local ids are unique per function and only never-mutated locals are inlined,
+            # so one shared environment is exact across branches
+            t = self.ev(n["th"], env)
+            e = self.ev(n["el"], env) if "el" in n else ("tuple", ())
             return ("ite", c, t, e)
         if k == "Let":
             t = self.ev(n["e"], env)
@@ -138,7 +155,7 @@ class Sym:
             sc = self.ev(n["e"], env)
             arms = []
             for a in n["arms"]:
-                e2 = dict(env)
+                e2 = env
                 self.bind_pat(a["p"], sc, e2)
                 g = self.ev(a["g"], e2) if "g" in a else None
                 arms.append((show_pat(a["p"]), g, self.ev(a["b"], e2)))
@@ -168,7 +185,7 @@ class Sym:
         if k in ("Break", "Continue"):
             return (k.lower(),)
         if k == "Loop":
-            return ("loop", self.ev(n["b"], dict(env)))
+            return ("loop", self.ev(n["b"], env))
         return ("opaque", k)
 
 
@@ -229,4 +246,16 @@ def fmt(t, depth=0):
         return t[1].split("::")[-1]
     if h == "index":
         return "%s[%s]" % (fmt(t[1], d), fmt(t[2], d))
+    if h == "seq":
+        return "{%s; %s}" % ("; ".join(fmt(x, d) for x in t[1]), fmt(t[2], d))
+    if h == "letstmt":
+        return "let %s = %s" % (t[1], fmt(t[2], d))
+    if h == "letelse":
+        return "let %s = %s else %s" % (t[1], fmt(t[2], d), fmt(t[3], d))
+    if h == "assign":
+        return "%s = %s" % (fmt(t[1], d), fmt(t[2], d))
+    if h == "assignop":
+        return "%s %s= %s" % (fmt(t[2], d), t[1], fmt(t[3], d))
+    if h == "loop":
+        return "loop %s" % fmt(t[1], d)
     return "<%s>" % h
